@@ -1,7 +1,778 @@
+// Package ttlsim decides property C10 ("expired data is dead; unexpired data
+// is never removed"): a real single-replica data node (nodeh: KVNode, raft,
+// WAL, snapshots, apply loop, rockredis on mem or pebble, the server's redis
+// command path) runs inside a synctest bubble whose fake clock is the node's
+// wall clock. The tape places every command at a chosen instant relative to
+// the outstanding expiry instants (before, in the boundary second, at the
+// exact instant, after) and interleaves compactions, restarts (kill -9 and
+// graceful; replay and checkpoint restore with a later clock) and, under
+// local_deletion, the node's own background deletion passes. Every reply is
+// compared with the reference model in model.go.
 package ttlsim
 
-import "verif/sim/core"
+import (
+	"fmt"
+	"strings"
+	"testing"
+	"testing/synctest"
+	"time"
+
+	"github.com/youzan/ZanRedisDB/node"
+
+	"verif/sim/core"
+	"verif/sim/nodeh"
+)
 
 var Engine = core.Engine{Name: "ttlsim", Run: Run}
 
-func Run(c *core.RunCtx) {}
+type cfg struct {
+	ld        bool // local_deletion (else wait_compact + value_header_v1)
+	engine    string
+	snapCount int
+	catchup   int
+	keepBack  int
+	steps     int
+	types     string // enabled key types
+	sameInst  bool   // some commands share one timestamp
+	wCmd, wAim, wNudge, wCompact, wKill, wStop, wTick int
+	readPm    int // share of reads among commands
+	expPm     int // share of expiry-giving commands among writes
+}
+
+type sim struct {
+	c     *core.RunCtx
+	t     *core.Tape
+	g     cfg
+	cl    *nodeh.Cluster
+	m     *Model
+	nval  int
+	ops   int
+	env   int
+	bootAt int64 // clock when the store of the current process was opened
+	focus  string
+	burst  int
+	head   []string
+}
+
+func pick(t *core.Tape, vals ...int) int { return vals[t.Choose(len(vals))] }
+
+func drawCfg(c *core.RunCtx) cfg {
+	t := c.Tape
+	var g cfg
+	g.ld = t.Choose(4) == 3
+	g.engine = []string{"mem", "pebble"}[t.Choose(2)]
+	g.snapCount = pick(t, 10, 5, 20, 40, 200)
+	g.catchup = pick(t, 3, 2, 5)
+	g.keepBack = pick(t, 1, 0, 2)
+	g.steps = pick(t, 120, 80, 200)
+	if c.Tier == "thorough" {
+		g.steps = pick(t, 200, 120, 400)
+	}
+	all := "khlszb"
+	switch t.Choose(4) {
+	case 0:
+		g.types = all
+	case 1:
+		g.types = "k"
+	case 2:
+		g.types = string(all[1+t.Choose(5)]) + "k"
+	default:
+		g.types = ""
+		for _, ch := range all {
+			if t.Bool(500) {
+				g.types += string(ch)
+			}
+		}
+		if g.types == "" {
+			g.types = "kh"
+		}
+	}
+	if g.ld {
+		// local deletion does not handle bitmaps (documented in code only): no expiry to check
+		g.types = strings.ReplaceAll(g.types, "b", "")
+		if g.types == "" {
+			g.types = "k"
+		}
+	}
+	g.sameInst = t.Choose(6) == 5
+	g.wCmd = 700
+	g.wAim = pick(t, 150, 80, 250)
+	g.wNudge = pick(t, 40, 10, 100)
+	g.wCompact = pick(t, 15, 0, 40)
+	g.wKill = pick(t, 8, 0, 20)
+	g.wStop = pick(t, 4, 0, 12)
+	g.wTick = 0
+	if g.ld {
+		g.wTick = pick(t, 30, 10, 60)
+	}
+	g.readPm = pick(t, 450, 300, 600)
+	g.expPm = pick(t, 250, 150, 400)
+	return g
+}
+
+func Run(c *core.RunCtx) {
+	s := &sim{c: c, t: c.Tape}
+	s.g = drawCfg(c)
+	c.Log("cfg", "%+v", s.g)
+	func() {
+		defer func() {
+			if e := recover(); e != nil {
+				msg := fmt.Sprint(e)
+				if strings.Contains(msg, "deadlock: main bubble goroutine has exited") {
+					c.Count("infra.bubble_leftover_goroutines", 1)
+					return
+				}
+				panic(e)
+			}
+		}()
+		synctest.Test(c.T, func(t *testing.T) { s.bubble() })
+	}()
+	if s.m == nil {
+		return
+	}
+	// the worker reports the first violation of a run: unexplained ones first
+	var un, kn []core.Violation
+	for _, v := range c.Viol {
+		if v.Key == "" {
+			un = append(un, v)
+		} else {
+			kn = append(kn, v)
+		}
+	}
+	c.Viol = append(un, kn...)
+	for _, n := range core.SortedKeys(s.m.Notes) {
+		c.Count("probe."+n, int64(s.m.Notes[n]))
+	}
+	c.Count("cand_overflow", int64(s.m.Overflow))
+	c.Count("commands", int64(s.ops))
+	ba := s.m.BeforeAndAfter()
+	c.Count("keys_seen_before_and_after_expiry", int64(ba))
+	c.NonTrivial = ba >= 1 && s.env >= 1 && s.ops >= 30
+	c.Events = int64(s.ops + s.env)
+	pol := "wait_compact"
+	if s.g.ld {
+		pol = "local_deletion"
+	}
+	c.Sample = map[string]interface{}{"policy": pol, "config": fmt.Sprintf("%+v", s.g), "commands": s.ops, "env_events": s.env,
+		"keys_seen_before_and_after_expiry": ba, "head": s.head}
+}
+
+const prop = "C10"
+
+// failed: an unexplained violation ends the run; a violation that is exactly
+// a known finding is recorded, absorbed by the model and the run goes on.
+func (s *sim) failed() bool {
+	for _, v := range s.c.Viol {
+		if v.Key == "" {
+			return true
+		}
+	}
+	return false
+}
+
+func (s *sim) now() int64 { return time.Now().UnixNano() }
+
+func fmtT(ns int64) string { return fmt.Sprintf("%d.%09d", ns/sec, ns%sec) }
+
+func (s *sim) sleepTo(target int64) {
+	if d := target - s.now(); d > 0 {
+		s.cl.Sleep(time.Duration(d))
+	}
+}
+
+func (s *sim) store() *node.KVStore {
+	nn := s.cl.M[0].Parts[0]
+	return node.VerifKVStore(nn.Node.VerifStateMachine())
+}
+
+func (s *sim) bubble() {
+	c, t, g := s.c, s.t, s.g
+	opt := nodeh.Options{Machines: 1, Partitions: 1, Replicas: 1, Engine: g.engine, SnapCount: g.snapCount, SnapCatchup: g.catchup, KeepBackup: g.keepBack}
+	if g.ld {
+		opt.ExpPolicy = "local_deletion"
+	} else {
+		opt.ExpPolicy = "wait_compact"
+		opt.DataVersion = "value_header_v1"
+	}
+	s.bootAt = s.now()
+	cl := nodeh.New(c, opt)
+	s.cl = cl
+	defer cl.Close()
+	s.m = NewModel(g.ld)
+	cl.PumpFair(80, func() bool { return cl.Leader(0) >= 0 })
+	if cl.Leader(0) < 0 {
+		c.Violate(prop, "no-initial-leader", "", "no leader after 80 fair rounds on a fresh single-replica node")
+		return
+	}
+	// a tape-chosen sub-second phase so that command timestamps are not aligned
+	cl.Sleep(time.Duration(t.Choose(1000)) * time.Millisecond)
+	w := []int{g.wCmd, g.wAim, g.wNudge, g.wCompact, g.wKill, g.wStop, g.wTick}
+	for i := 0; i < g.steps && !s.failed(); i++ {
+		ev := t.Weighted(w)
+		if s.burst > 0 {
+			ev = 0
+		}
+		switch ev {
+		case 0:
+			s.command()
+		case 1:
+			s.aim()
+		case 2:
+			d := time.Duration(1+t.Choose(1500)) * time.Millisecond
+			if g.ld && t.Bool(300) {
+				d = time.Duration(1+t.Choose(120)) * time.Second
+			}
+			c.Log("advance", "%v", d)
+			cl.Sleep(d)
+		case 3:
+			s.compact()
+		case 4:
+			s.restart(true)
+		case 5:
+			s.restart(false)
+		case 6:
+			s.toTick()
+		}
+	}
+	// final sweep: every key once more, well after every wait_compact expiry
+	if !s.failed() {
+		if !g.ld {
+			cl.Sleep(2500 * time.Millisecond)
+		}
+		if t.Bool(500) {
+			s.restart(t.Bool(500))
+		}
+		for _, typ := range g.types {
+			for k := 0; k < 2 && !s.failed(); k++ {
+				s.exec(s.fullRead(byte(typ), keyName(byte(typ), k)))
+			}
+		}
+	}
+	c.SimMs = (s.now() - time.Date(2000, 1, 1, 0, 0, 0, 0, time.UTC).UnixNano()) / 1e6
+}
+
+func keyName(typ byte, i int) string { return fmt.Sprintf("t:%c%d", typ, i) }
+
+func (s *sim) fullRead(typ byte, key string) Op {
+	switch typ {
+	case 'k':
+		return Op{Name: "get", Typ: typ, Keys: []string{key}}
+	case 'h':
+		return Op{Name: "hgetall", Typ: typ, Keys: []string{key}}
+	case 'l':
+		return Op{Name: "lrange", Typ: typ, Keys: []string{key}, Args: []string{"0", "-1"}}
+	case 's':
+		return Op{Name: "smembers", Typ: typ, Keys: []string{key}}
+	case 'z':
+		return Op{Name: "zrange", Typ: typ, Keys: []string{key}, Args: []string{"0", "-1", "withscores"}}
+	}
+	return Op{Name: "bitcount", Typ: typ, Keys: []string{key}}
+}
+
+// ---- environment events ------------------------------------------------------------
+
+func (s *sim) compact() {
+	c := s.c
+	st := s.store()
+	if st == nil {
+		return
+	}
+	gh := s.m.Ghosts(s.now())
+	c.Log("compact", "at %s ghosts=%d", fmtT(s.now()), gh)
+	st.CompactAllRange()
+	synctest.Wait()
+	c.Fault("compaction")
+	s.env++
+	if gh > 0 {
+		c.Probe("compaction_with_expired_data")
+	}
+	if s.m.LiveExpiries(s.now()) > 0 {
+		c.Probe("compaction_with_live_expiring_data")
+	}
+}
+
+func (s *sim) restart(kill bool) {
+	c, cl := s.c, s.cl
+	m := cl.M[0]
+	gh, live := s.m.Ghosts(s.now()), s.m.LiveExpiries(s.now())
+	if kill {
+		c.Log("kill", "at %s", fmtT(s.now()))
+		c.Fault("kill")
+		cl.Kill(m)
+	} else {
+		c.Log("stop", "at %s", fmtT(s.now()))
+		c.Fault("stop_graceful")
+		cl.StopGraceful(m)
+	}
+	// the process stays down for a tape-chosen time: expiries pass meanwhile
+	down := time.Duration(s.t.Choose(4000)) * time.Millisecond
+	if s.g.ld && s.t.Bool(300) {
+		down = time.Duration(s.t.Choose(400)) * time.Second
+	}
+	cl.Sleep(down)
+	if err := cl.Restart(m); err != nil {
+		c.Violate(prop, "restart-failed", "", "node does not come back on its directory: %v", err)
+		return
+	}
+	s.bootAt = s.now()
+	cl.PumpFair(100, func() bool { return cl.Leader(0) >= 0 })
+	if cl.Leader(0) < 0 {
+		c.Violate(prop, "no-leader-after-restart", "", "no leader 100 fair rounds after the restart")
+		return
+	}
+	c.Log("restarted", "at %s", fmtT(s.now()))
+	s.env++
+	if gh > 0 {
+		c.Probe("restart_with_expired_data")
+	}
+	if live > 0 {
+		c.Probe("restart_with_live_expiring_data")
+	}
+	if gh2 := s.m.Ghosts(s.now()); gh2 > gh {
+		c.Probe("replay_with_later_clock")
+	}
+}
+
+// toTick moves the clock to the neighbourhood of the store's next background
+// deletion pass (the node's own ticker: every 300 s from the open of the store).
+func (s *sim) toTick() {
+	c := s.c
+	now := s.now()
+	period := 300 * sec
+	k := (now-s.bootAt)/period + 1
+	tick := s.bootAt + k*period
+	off := []int64{-1000000, 0, 1000000, sec, 2 * sec}[s.t.Choose(5)]
+	due := s.m.DueLD(tick)
+	c.Log("to-tick", "tick %s off %d due=%d", fmtT(tick), off, due)
+	s.sleepTo(tick + off)
+	if s.now() >= tick {
+		s.env++
+		c.Fault("ttl_checker_tick")
+		if due > 0 {
+			c.Probe("ttl_checker_pass_with_due_keys")
+		}
+	}
+}
+
+// aim moves the clock to a chosen position relative to an outstanding expiry
+// instant and focuses the next few commands on that key.
+func (s *sim) aim() {
+	c, t := s.c, s.t
+	out := s.m.Outstanding()
+	now := s.now()
+	var fut []Expiry
+	for _, e := range out {
+		if e.Xhi+2*sec > now {
+			fut = append(fut, e)
+		}
+	}
+	if len(fut) == 0 {
+		return
+	}
+	e := fut[t.Choose(len(fut))]
+	E := e.Sec * sec
+	f := e.Xhi - E // sub-second phase of the command that gave the expiry
+	cands := []int64{
+		E - 2*sec - int64(t.Choose(900))*1000000, // two whole seconds and a bit before
+		E - sec - 1000000,
+		E - sec,
+		E - 1000000,
+		E - 1,
+		E,
+		E + 1,
+		E + 1000000,
+		E + f - 1000000,
+		E + f - 1,
+		E + f,
+		E + f + 1000000,
+		E + 999000000,
+		E + sec,
+		E + sec + int64(t.Choose(1500))*1000000,
+	}
+	pos := t.Choose(len(cands))
+	target := cands[pos]
+	if target < now {
+		// the nearest later position
+		for _, x := range cands {
+			if x >= now {
+				target = x
+				break
+			}
+		}
+		if target < now {
+			return
+		}
+	}
+	c.Log("aim", "%s E=%d pos=%d -> %s", e.ID, e.Sec, pos, fmtT(target))
+	s.sleepTo(target)
+	s.focus = e.ID
+	s.burst = 1 + t.Choose(4)
+}
+
+// ---- commands ---------------------------------------------------------------------
+
+func (s *sim) val() string {
+	s.nval++
+	return fmt.Sprintf("v%d", s.nval)
+}
+
+func (s *sim) command() {
+	t, g := s.t, s.g
+	var typ byte
+	var key string
+	if s.burst > 0 && s.focus != "" {
+		s.burst--
+		typ, key = s.focus[0], s.focus[2:]
+	} else {
+		s.burst = 0
+		typ = g.types[t.Choose(len(g.types))]
+		key = keyName(typ, t.Choose(2))
+	}
+	var op Op
+	if t.Bool(g.readPm) {
+		op = s.genRead(typ, key)
+	} else if t.Bool(g.expPm) {
+		op = s.genExpiry(typ, key)
+	} else {
+		op = s.genWrite(typ, key)
+	}
+	s.exec(op)
+}
+
+func (s *sim) ttlSecs() string {
+	t := s.t
+	if s.g.ld {
+		return fmt.Sprint(pick(t, 2, 1, 5, 60, 299, 300, 301, 450, 900))
+	}
+	return fmt.Sprint(pick(t, 2, 1, 3, 5, 8))
+}
+
+func (s *sim) genExpiry(typ byte, key string) Op {
+	t := s.t
+	k := []string{key}
+	pre := ""
+	if typ != 'k' {
+		pre = string(typ)
+	}
+	switch t.Weighted([]int{50, 20, 15, 15}) {
+	case 0:
+		if typ == 'k' && t.Bool(500) {
+			if t.Bool(300) {
+				return Op{Name: "set", Typ: typ, Keys: k, Args: []string{s.val(), "ex", s.ttlSecs()}}
+			}
+			return Op{Name: "setex", Typ: typ, Keys: k, Args: []string{s.ttlSecs(), s.val()}}
+		}
+		return Op{Name: pre + "expire", Typ: typ, Keys: k, Args: []string{s.ttlSecs()}}
+	case 1:
+		return Op{Name: pre + "persist", Typ: typ, Keys: k}
+	case 2:
+		return Op{Name: ttlName(typ), Typ: typ, Keys: k}
+	default:
+		switch typ {
+		case 'k':
+			if t.Bool(300) {
+				return Op{Name: "del", Typ: typ, Keys: []string{keyName('k', 0), keyName('k', 1)}}
+			}
+			return Op{Name: "del", Typ: typ, Keys: k}
+		case 'b':
+			return Op{Name: "bitclear", Typ: typ, Keys: k}
+		}
+		return Op{Name: pre + "clear", Typ: typ, Keys: k}
+	}
+}
+
+func (s *sim) genRead(typ byte, key string) Op {
+	t := s.t
+	k := []string{key}
+	pre := string(typ)
+	o := func(name string, args ...string) Op { return Op{Name: name, Typ: typ, Keys: k, Args: args} }
+	if t.Bool(150) {
+		return o(ttlName(typ))
+	}
+	switch typ {
+	case 'k':
+		switch t.Choose(6) {
+		case 0, 1:
+			return o("get")
+		case 2:
+			return o("exists")
+		case 3:
+			return Op{Name: "exists", Typ: typ, Keys: []string{keyName('k', 0), keyName('k', 1)}}
+		case 4:
+			return Op{Name: "mget", Typ: typ, Keys: []string{keyName('k', 0), keyName('k', 1)}}
+		default:
+			return o("strlen")
+		}
+	case 'h':
+		switch t.Choose(8) {
+		case 0, 1:
+			return o("hgetall")
+		case 2:
+			return o("hlen")
+		case 3:
+			return o("hkeyexist")
+		case 4:
+			return o("hget", s.field())
+		case 5:
+			return o("hexists", s.field())
+		case 6:
+			return o("hmget", "f0", "f1", "f2")
+		default:
+			return o([]string{"hkeys", "hvals"}[t.Choose(2)])
+		}
+	case 'l':
+		switch t.Choose(5) {
+		case 0, 1:
+			return o("lrange", "0", "-1")
+		case 2:
+			return o("llen")
+		case 3:
+			return o("lkeyexist")
+		default:
+			return o("lindex", fmt.Sprint(t.Choose(3)))
+		}
+	case 's':
+		switch t.Choose(5) {
+		case 0, 1:
+			return o("smembers")
+		case 2:
+			return o("scard")
+		case 3:
+			return o("skeyexist")
+		default:
+			return o("sismember", s.member())
+		}
+	case 'z':
+		switch t.Choose(6) {
+		case 0, 1:
+			return o("zrange", "0", "-1", "withscores")
+		case 2:
+			return o("zcard")
+		case 3:
+			return o("zkeyexist")
+		case 4:
+			return o("zscore", s.member())
+		default:
+			return o("zrank", s.member())
+		}
+	}
+	switch t.Choose(3) {
+	case 0:
+		return o("getbit", s.bitOff())
+	case 1:
+		return o("bitcount")
+	default:
+		return o(pre + "keyexist")
+	}
+}
+
+func (s *sim) field() string  { return fmt.Sprintf("f%d", s.t.Choose(3)) }
+func (s *sim) member() string { return fmt.Sprintf("m%d", s.t.Choose(4)) }
+func (s *sim) bitOff() string { return fmt.Sprint(pick(s.t, 0, 5, 9, 70)) }
+
+func (s *sim) genWrite(typ byte, key string) Op {
+	t := s.t
+	k := []string{key}
+	o := func(name string, args ...string) Op { return Op{Name: name, Typ: typ, Keys: k, Args: args} }
+	switch typ {
+	case 'k':
+		switch t.Weighted([]int{12, 8, 6, 14, 10, 12, 8, 8, 5, 5, 6}) {
+		case 0:
+			return o("set", s.val())
+		case 1:
+			return o("getset", s.val())
+		case 2:
+			return Op{Name: "plset", Typ: typ, Keys: []string{keyName('k', 0), keyName('k', 1)}, Args: []string{s.val(), s.val()}}
+		case 3:
+			return o("append", s.val())
+		case 4:
+			return o("setrange", fmt.Sprint(t.Choose(5)), s.val())
+		case 5:
+			return o("incr")
+		case 6:
+			return o("incrby", fmt.Sprint(1+t.Choose(9)))
+		case 7:
+			return o("setnx", s.val())
+		case 8:
+			return o("set", s.val(), "nx")
+		case 9:
+			return o("set", s.val(), "xx")
+		default:
+			// a numeric value so that INCR meets live strings and live numbers
+			return o("set", fmt.Sprint(t.Choose(50)))
+		}
+	case 'h':
+		switch t.Weighted([]int{30, 12, 15, 15, 6}) {
+		case 0:
+			return o("hset", s.field(), s.val())
+		case 1:
+			f := s.t.Choose(3)
+			return o("hmset", fmt.Sprintf("f%d", f), s.val(), fmt.Sprintf("f%d", (f+1)%3), s.val())
+		case 2:
+			return o("hincrby", "n"+fmt.Sprint(t.Choose(2)), fmt.Sprint(1+t.Choose(5)))
+		case 3:
+			if t.Bool(300) {
+				return o("hdel", "f0", "f1", "f2", "n0", "n1")
+			}
+			return o("hdel", s.field())
+		default:
+			return o("hsetnx", s.field(), s.val())
+		}
+	case 'l':
+		switch t.Weighted([]int{20, 20, 12, 12, 10, 8}) {
+		case 0:
+			return o("lpush", s.val())
+		case 1:
+			if t.Bool(300) {
+				return o("rpush", s.val(), s.val())
+			}
+			return o("rpush", s.val())
+		case 2:
+			return o("lpop")
+		case 3:
+			return o("rpop")
+		case 4:
+			return o("lset", fmt.Sprint(t.Choose(3)), s.val())
+		default:
+			return o("ltrim", "0", fmt.Sprint(t.Choose(3)))
+		}
+	case 's':
+		switch t.Weighted([]int{35, 20, 15}) {
+		case 0:
+			if t.Bool(300) {
+				i := t.Choose(4)
+				return o("sadd", fmt.Sprintf("m%d", i), fmt.Sprintf("m%d", (i+1)%4))
+			}
+			return o("sadd", s.member())
+		case 1:
+			return o("srem", s.member())
+		default:
+			if t.Bool(300) {
+				return o("spop", "2")
+			}
+			return o("spop")
+		}
+	case 'z':
+		switch t.Weighted([]int{35, 20, 20}) {
+		case 0:
+			if t.Bool(300) {
+				i := t.Choose(4)
+				return o("zadd", fmt.Sprint(t.Choose(5)), fmt.Sprintf("m%d", i), fmt.Sprint(t.Choose(5)), fmt.Sprintf("m%d", (i+1)%4))
+			}
+			return o("zadd", fmt.Sprint(t.Choose(5)), s.member())
+		case 1:
+			return o("zincrby", fmt.Sprint(1+t.Choose(3)), s.member())
+		default:
+			return o("zrem", s.member())
+		}
+	}
+	if t.Bool(250) {
+		return o("setbit", s.bitOff(), "0")
+	}
+	return o("setbit", s.bitOff(), "1")
+}
+
+func isRead(name string) bool {
+	switch name {
+	case "get", "strlen", "exists", "mget", "ttl", "hgetall", "hlen", "hkeyexist", "hget", "hexists", "hmget", "hkeys", "hvals", "httl",
+		"lrange", "llen", "lkeyexist", "lindex", "lttl", "smembers", "scard", "skeyexist", "sismember", "sttl",
+		"zrange", "zcard", "zkeyexist", "zscore", "zrank", "zttl", "getbit", "bitcount", "bkeyexist", "bttl":
+		return true
+	}
+	return false
+}
+
+func toCmd(op Op) []interface{} {
+	xs := []interface{}{op.Name}
+	if op.Name == "plset" {
+		for i, k := range op.Keys {
+			xs = append(xs, nodeh.NS+":"+k, op.Args[i])
+		}
+		return xs
+	}
+	for _, k := range op.Keys {
+		xs = append(xs, nodeh.NS+":"+k)
+	}
+	for _, a := range op.Args {
+		xs = append(xs, a)
+	}
+	return xs
+}
+
+func canon(r interface{}, ok bool) string {
+	if !ok {
+		return "<no reply>"
+	}
+	if nodeh.IsErr(r) {
+		return rErr
+	}
+	return nodeh.Fmt(r)
+}
+
+// exec issues one command at the current instant, checks the reply against
+// the model and lets a little simulated time pass.
+func (s *sim) exec(op Op) {
+	c, cl := s.c, s.cl
+	tInv := s.now()
+	// evidence about where this command sits relative to the key's expiry
+	rd := isRead(op.Name)
+	for _, e := range s.m.Outstanding() {
+		if e.ID == string(op.Typ)+"|"+op.Keys[0] && !s.g.ld {
+			switch {
+			case tInv/sec == e.Sec && rd:
+				c.Probe("read_at_boundary_second")
+			case tInv/sec == e.Sec:
+				c.Probe("write_at_boundary_second")
+			}
+			if tInv == e.Sec*sec || tInv == e.Xhi {
+				c.Probe("command_exactly_at_expiry_instant")
+			}
+		}
+	}
+	call := cl.Invoke(cl.M[0], nodeh.Cmd(toCmd(op)...))
+	if !call.Done() {
+		c.Probe("command_needed_pumping")
+		for r := 0; r < 100 && !call.Done(); r++ {
+			cl.PumpFair(1, nil)
+		}
+	}
+	r, ok := call.Reply()
+	actual := canon(r, ok)
+	raw := actual
+	if ok && nodeh.IsErr(r) {
+		raw = nodeh.Fmt(r)
+	}
+	c.Log(op.Name, "@%s %s -> %s", fmtT(tInv), op, raw)
+	s.ops++
+	if len(s.head) < 14 {
+		s.head = append(s.head, fmt.Sprintf("@%s %s -> %s", fmtT(tInv), op, raw))
+	}
+	res := s.m.Apply(op, tInv, actual)
+	switch {
+	case !res.OK:
+		rule := "reply-differs-from-model"
+		if s.g.ld {
+			rule = "ld-reply-differs-from-model"
+		}
+		c.Violate(prop, rule, "", "%s at %s answered %s, the model allows %s (policy %s, engine %s)", op, fmtT(tInv), raw, res.Expected, s.policy(), s.g.engine)
+	case res.Via != "":
+		c.Violate(prop, "known-"+res.Via, res.Via, "%s at %s answered %s (policy %s, engine %s)", op, fmtT(tInv), raw, s.policy(), s.g.engine)
+	}
+	// simulated time flows with work
+	if !rd {
+		if s.g.sameInst && s.t.Bool(400) {
+			c.Probe("same_timestamp_as_next_command")
+			return
+		}
+		cl.Sleep(time.Duration(1+s.t.Choose(3)) * time.Millisecond)
+	} else if s.t.Bool(200) {
+		cl.Sleep(time.Millisecond)
+	}
+}
+
+func (s *sim) policy() string {
+	if s.g.ld {
+		return "local_deletion"
+	}
+	return "wait_compact"
+}
